@@ -65,7 +65,20 @@ Proof.
   constructor. unfold set_device_information. cbv zeta. destruct (negb (valid_dev r i)); [apply same_rx_refl|].
   match goal with |- same_rx r (set_name r i ?nm) => destruct (set_name_k r i nm) as [K]; exact K end.
 Qed.
-#[local] Hint Resolve set_mode_api_k set_device_information_k : rxk.
+(* ExtendTransmitMessages / ExtendReceiveMessages / SetProductInformation: reception reads none of d_tx, x_rx, c_prodinfo *)
+Lemma set_tx_list_k r i l : KNOW (set_tx_list r i l) (same_rx r (set_tx_list r i l)).
+Proof. constructor. unfold set_tx_list. destruct (negb (valid_dev r i)); repeat split. Qed.
+Lemma set_rx_list_k r i l : KNOW (set_rx_list r i l) (same_rx r (set_rx_list r i l)).
+Proof. constructor. unfold set_rx_list. destruct (negb (valid_dev r i)); repeat split. Qed.
+Lemma set_prodinfo_k r serial code model sw ver load version cert :
+  KNOW (with_cfg r (ProdInfoDefs.set_product_information (r_cfg r) serial code model sw ver load version cert))
+       (same_rx r (with_cfg r (ProdInfoDefs.set_product_information (r_cfg r) serial code model sw ver load version cert))).
+Proof. constructor. repeat split. Qed.
+(* SetHandleOnlyKnownMessages: everything but the switch *)
+Lemma set_only_known_w r b :
+  r_slots (set_only_known r b) = r_slots r /\ r_q (set_only_known r b) = r_q r /\ rn (set_only_known r b) = rn r.
+Proof. repeat split. Qed.
+#[local] Hint Resolve set_mode_api_k set_device_information_k set_tx_list_k set_rx_list_k set_prodinfo_k : rxk.
 Ltac abs_rn ::=
   repeat match goal with
   | |- context [set_src ?r ?i ?a ?b] => abs_one (set_src r i a b)
@@ -74,13 +87,18 @@ Ltac abs_rn ::=
   | |- context [set_instances ?r ?i ?a ?b ?c] => abs_one (set_instances r i a b c)
   | |- context [set_mode_api ?r ?a ?b] => abs_one (set_mode_api r a b)
   | |- context [set_device_information ?r ?i ?a ?b ?c ?d ?e] => abs_one (set_device_information r i a b c d e)
+  | |- context [set_tx_list ?r ?i ?l] => abs_one (set_tx_list r i l)
+  | |- context [set_rx_list ?r ?i ?l] => abs_one (set_rx_list r i l)
+  | |- context [with_cfg ?r ?c] => abs_one (with_cfg r c)
   end.
 
-Lemma api_step_w r a : api_keeps_lists a = true -> wq2 r (api_step r a).
+Lemma api_step_w r a : api_keeps_filter a = true -> wq2 r (api_step r a).
 Proof.
   intros Hk. destruct a; try discriminate; cbn [api_step]; unfold osend; cbv beta.
   all: crack; finw.
 Qed.
+Lemma keeps_filter_split a : api_keeps_lists a = true -> api_keeps_filter a = true \/ exists b, a = ASetOnlyKnown b.
+Proof. intros H. destruct a; try discriminate H; try (left; reflexivity). right. eexists. reflexivity. Qed.
 
 (* ---------------- on an open node nothing goes through Open(): the driver queue is kept ---------------- *)
 Lemma open_first_open r : n_open (rn r) = 3 -> open_first r = (r, []).
@@ -115,7 +133,7 @@ Proof.
   split; [exact O2|]. finr.
 Qed.
 
-Lemma api_step_open r a : api_keeps_lists a = true -> n_open (rn r) = 3 -> rq2 r (api_step r a).
+Lemma api_step_open r a : api_keeps_filter a = true -> n_open (rn r) = 3 -> rq2 r (api_step r a).
 Proof.
   intros Hk Hop. destruct a; try discriminate; cbn [api_step]; rewrite ?(osend_open r _ Hop).
   6:{ destruct (negb (is_active_node (rn r))); [finr|]. apply send_heartbeat_api_open. exact Hop. }
@@ -124,8 +142,11 @@ Qed.
 
 Theorem api_table_kept : api_table_kept_stmt.
 Proof.
-  intros r a Hk. destruct (api_step_w r a Hk) as [(S & N & C & W & Q) E]. do 5 (split; [assumption|]).
-  intros Hop. destruct (api_step_open r a Hk Hop) as [(_ & Q' & _) _]. exact Q'.
+  intros r a Hk. destruct (keeps_filter_split a Hk) as [Hf|(b & ->)].
+  - destruct (api_step_w r a Hf) as [(S & N & C & W & Q) E]. do 2 (split; [assumption|]). split; [intros _; exact C|]. do 2 (split; [assumption|]).
+    intros Hop. destruct (api_step_open r a Hf Hop) as [(_ & Q' & _) _]. exact Q'.
+  - cbn [api_step fst snd]. destruct (set_only_known_w r b) as (S & Q & N). rewrite S, Q, N.
+    split; [reflexivity|]. split; [reflexivity|]. split; [intros C; discriminate C|]. split; [reflexivity|]. split; [left; reflexivity|]. reflexivity.
 Qed.
 
 (* ---------------- the invariant of RxProofsC over extended histories ---------------- *)
@@ -139,9 +160,13 @@ Lemma xstep_inv c fs gf r o D ds : gf_ok gf -> xop_keeps_lists o = true -> Inv c
 Proof.
   intros Hgf Hk I. destruct o as [o|a]; cbn [xstep].
   - rewrite xframes_of_base. apply rstep_inv; assumption.
-  - cbn [xop_keeps_lists] in Hk. destruct (api_step_w r a Hk) as [(S & N & C & W & Q) E]. exists [].
-    cbn [xframes_of flat_map]. rewrite (fp_dlv_nil _ E), !app_nil_r.
-    destruct Q as [Q|Q]; [eapply Inv_same | eapply Inv_clear]; eauto.
+  - cbn [xop_keeps_lists] in Hk. exists []. cbn [xframes_of flat_map]. destruct (keeps_filter_split a Hk) as [Hf|(b & ->)].
+    + destruct (api_step_w r a Hf) as [(S & N & C & W & Q) E].
+      rewrite (fp_dlv_nil _ E), !app_nil_r.
+      destruct Q as [Q|Q]; [eapply Inv_same | eapply Inv_clear]; eauto.
+    + (* SetHandleOnlyKnownMessages: the invariant does not mention the switch *)
+      cbn [api_step fst snd fp_dlv]. rewrite !app_nil_r. destruct (set_only_known_w r b) as (S & Q & N).
+      eapply Inv_same; [exact I|exact S|exact Q|rewrite N; reflexivity].
 Qed.
 
 Lemma xrun_inv c gf : gf_ok gf -> forall ops fs r D ds, keeps_lists ops -> Inv c fs r D ds ->
